@@ -377,6 +377,13 @@ def check(case, ctx):
         ends = {c['end'] // 1000 for c in l['captions']}
         stray = [ms for ms in blanks.get(l['lang'], []) if ms not in ends]
         ctx.count('sami_clearing_paragraphs_checked', len(blanks.get(l['lang'], [])))
+        # ... and every cue followed by a gap (the next cue of the language does not start at its end) is cleared
+        caps = l['captions']
+        missing = [c['end'] // 1000 for c, n in zip(caps, caps[1:])
+                   if c['end'] // 1000 != n['start'] // 1000 and c['end'] // 1000 not in blanks.get(l['lang'], [])]
+        if missing:
+            fails.append({'what': 'a cue that is followed by a gap has no clearing paragraph of its language at its end',
+                          'lang': l['lang'], 'at_ms': missing[:5], 'clearing_paragraphs_ms': blanks.get(l['lang'], [])[:10]})
         if stray:
             fails.append({'what': 'a clearing paragraph is filed under a language none of whose cues ends at that time',
                           'lang': l['lang'], 'at_ms': stray[:5], 'cue_ends_ms': sorted(ends)[:10]})
